@@ -1,3 +1,6 @@
+(* STATUS NOTE (third session): remarks of the form "NOT PROVED" in the comments below were written when the first theorems of this
+   file were stated; theorems added further down in this file supersede them.  The current status of the property is the row of
+   DESIGN.md section 14.4; the premises that remain are listed in DESIGN.md section 14.9. *)
 (* C08 — No operation sequence panics or leaves the e-graph inconsistent.
    Model: EGraph/Model.v; every Rust panic site that the model mirrors (unwrap, indexing, HashMap[..])
    is an error value, so "the model returns Ok" is the model-level reading of "does not panic".
